@@ -95,6 +95,13 @@ def gen_cases(rng, tier):
     for late in (20000, 33000, 70000):
         for g in ("adv:31999;adv:2", "adv:15000;frame;adv:31999;adv:2", "adv:100;frame;adv:31999;adv:2;adv:40000", "adv:31000;frame,frame;adv:31999;adv:2"):
             cases.append(["e%d" % k, "c15", "in@%d" % late, g]); k += 1
+    # a peer whose address is an IPv4-mapped IPv6 address (an IPv4 host seen through a dual-stack socket): the connection lives, expires,
+    # is revived and reused like any other
+    for kind, pre in (("inm", ""), ("outm", "drop;")):
+        for g in (pre + "adv:31999;adv:2", pre + "adv:100;frame;adv:31999;adv:2", pre + "adv:15000;frame,frame;adv:20000;frame;adv:32001"):
+            cases.append(["e%d" % k, "c15", kind, g]); k += 1
+    cases.append(["e%d" % k, "c15", "outm", "frame;drop;adv:10;select;adv:100;drop;adv:32001"]); k += 1
+    cases.append(["e%d" % k, "c15", "outm", "clone,frame;drop,drop;adv:31999;frame;adv:31999;adv:2"]); k += 1
     # an outgoing connection whose stream reports another peer address than the one that was dialled (connect through the unspecified
     # address, a tunnelling factory): messages are delivered, it is closed 32 s after the last use like any other
     for g in ("frame;drop;adv:31999;adv:2", "drop;frame;adv:31999;adv:2;adv:31999", "drop;adv:32001", "clone,frame;drop,drop;adv:10;frame;adv:31999;adv:2", "frame,close", "drop;adv:100;close"):
@@ -134,7 +141,7 @@ def model_case(case, impl):
             else:
                 evs.append(e)
         groups.append(",".join(evs) if evs else "adv:0")
-    return case[:2] + ["out" if case[2] == "outalias" else ("in" if case[2].startswith("in@") else case[2])] + [";".join(groups)] + case[4:]
+    return case[:2] + ["out" if case[2] in ("outalias", "outm") else ("in" if (case[2].startswith("in@") or case[2] == "inm") else case[2])] + [";".join(groups)] + case[4:]
 
 
 def _sim_track(case):
